@@ -146,7 +146,7 @@ def explain(text, impl_tokens, spec_tokens, verdict, run=None):
                 ids.append('D38')
             elif any(t.startswith('b:') for t in aa + ab if t not in aa or t not in ab) and any(ty != 'CDATA' for el, an, ty, df in decls):
                 ids.append('WF19')
-            elif re.search(r'<!ENTITY[^>]*&#(x0*[9aAdD]|0*(9|10|13));', text):
+            elif any(re.search(r'&#(x0*[9aAdD]|0*(9|10|13));', lit) for lit in W.entity_literals(text).values()):
                 ids.append('D37')
             else:
                 return None
